@@ -21,11 +21,13 @@ def plan(tier):
                 ("ctl", F.ctl_family(4, ("fn",)), ["", "ECHF", "E", "CHF"]),
                 ("ctlgen", F.ctl_family(3, ("gen", "async")), ["", "ECHF", "E"]),
                 ("destr", F.destr_family(tier), ["", "ECHF", "E"]),
-                ("pair", F.pair_family(tier), ["", "ECHF", "E", "C", "H", "F"])]
+                ("pair", F.pair_family(tier), ["", "ECHF", "E", "C", "H", "F"]),
+                ("capt", F.capt_family(tier), ["", "ECHF", "E", "CHF"])]
     return [("place", F.place_family(tier), ["", "ECHF", "E", "CHF"]),
             ("scope", F.scope_family(tier), ["", "ECHF"]),
             ("ctl", F.ctl_family(3, ("fn",)), ["", "ECHF", "E"]),
-            ("pair", F.pair_family(tier), ["", "ECHF"])]
+            ("pair", F.pair_family(tier), ["", "ECHF"]),
+            ("capt", F.capt_family(tier), ["", "ECHF", "E"])]
 
 
 def run(chk):
